@@ -48,25 +48,25 @@ package ext
 //@ func tryReadTrailer(t, r, n) err
 //@   props C03
 //@   requires r != nil && t != nil
-//@   modifies t._all, alltype(protocol.argsKV), r.pos, r.avail, r.failed, mem, parseArr, hdrComplete
+//@   modifies t._all, alltype(protocol.argsKV), r.pos, r.avail, r.failed, mem, parseArr, hdrComplete, heNeedMore
 //@   allocates
 
 //@ func ReadTrailer(t, r) err
 //@   props C03
 //@   requires r != nil && t != nil
-//@   modifies t._all, alltype(protocol.argsKV), r.pos, r.avail, r.failed, mem, parseArr, hdrComplete
+//@   modifies t._all, alltype(protocol.argsKV), r.pos, r.avail, r.failed, mem, parseArr, hdrComplete, heNeedMore
 //@   allocates
 
 //@ func trySkipTrailer(r, n) err
 //@   props C03
 //@   requires r != nil
-//@   modifies r.pos, r.avail, r.failed, mem
+//@   modifies r.pos, r.avail, r.failed, mem, heNeedMore
 //@   allocates
 
 //@ func SkipTrailer(r) err
 //@   props C03
 //@   requires r != nil
-//@   modifies r.pos, r.avail, r.failed, mem
+//@   modifies r.pos, r.avail, r.failed, mem, heNeedMore
 //@   allocates
 
 // skipRest (fixed length): on success exactly the unread remainder of the body has been taken off the
@@ -347,7 +347,7 @@ package ext
 // C02 (the retry decision): when the parser only needs more bytes and the peek itself did not fail, the answer
 // is "need more" - whatever the buffered bytes look like - so the read loop retries with a longer peek. The
 // trailing-CRLF shortcut to EOF applies only after a failed peek.
-//@ ghost var heNeedMore bool scratch
+//@ ghost var heNeedMore bool
 //@ func HeaderError(typ, err, errParse, b) r
 //@   props C02
 //@   modifies heNeedMore
